@@ -23,6 +23,9 @@ Typed ==
   \cup { <<"f32", v>> : v \in { x \in FloatCorpus : x[1] = "f32" } } \cup { <<"f64", v>> : v \in { x \in FloatCorpus : x[1] = "f64" } }
   \cup { <<"str", v>> : v \in StrCorpus } \cup { <<"vec_u8", v>> : v \in BinCorpus }
   \cup { <<"tp_ns", v>> : v \in TsVals } \cup { <<"dur_ns", v>> : v \in TsVals }
+  \* a duration whose period (1/60 s) does not divide 10^9: 59 and 61 ticks; the nanoseconds are the floor of the exact value
+  \* (negative counts of such periods are inexact in either rounding direction: not prescribed)
+  \cup { <<"dur_60th", <<"ts", FALSE, Pad8(<<0>>), 983333333>>>>, <<"dur_60th", <<"ts", FALSE, Bytes8(0,0,0,0,0,0,0,1), 16666666>>>> }
   \cup { <<"vec_i32", <<"arr", a>>>> : a \in { <<>>, <<U(1), U(200), U(-3), U(40000)>>, Run(U(7), 15), Run(U(7), 16) } }
   \cup { <<"vec_str", <<"arr", <<S(<<120>>), S(<<>>)>>>>>>, <<"vec_vec_u8", <<"arr", <<<<"bin", <<1>>>>, <<"bin", <<>>>>>>>>>>,
          <<"map_str_i32", <<"map", <<<<S(<<97>>), U(1)>>, <<S(<<98>>), U(300)>>>>>>>>,
